@@ -1,5 +1,6 @@
 """Lctp (EthernetCTP decoder chain sub-check: C19, C01; C05/C06/C07 n/a) configuration for ./check"""
 CONF = {
+    'coq_sample': 10,   # cases re-evaluated inside Coq by vm_compute against the extracted runner's output
     'interesting': ['truncated-prefix-of-valid', 'skip-extreme', 'function-every-value', 'forward-data-layers', 'reply-layer', 'long-chain',
                     'chain-ends-on-empty-payload', 'error-after-add', 'decode-error', 'malformed', 'seed'],
     'rule': 'EthernetCTP frames built octet by octet: skip count 0,1,2,3,255..257,65534,65535 (odd counts are rejected); 0..6 forward-data layers '
